@@ -100,16 +100,17 @@ def shard(shard_i, nshards, tier, seed):
         types = [[], ['L'], ['M'], ['L', 'L'], ['L', 'M']]
         fsz = [[], [2], [3], [2, 2], [2, 3], [3, 2]]
         domsets = [{'L': 2, 'M': 3}, {'L': 2}, {}]
-        binds = [(t, term, f, pre, dm) for t in types for term in (True, False) for f in fsz for pre in (False, True) for dm in range(len(domsets))]
-        for k, (t, term, f, pre, dm) in enumerate(binds):
+        binds = [(t, term, f, pre, dm, var) for t in types for term in (True, False) for f in fsz for pre in (False, True) for dm in range(len(domsets))
+                 for var in ((0, 1, 2, 3, 4) if f else (0,))]
+        for k, (t, term, f, pre, dm, var) in enumerate(binds):
             if k % nshards != shard_i:
                 continue
-            problems = R.check_binding(fggs, torch, t, term, f, pre, domsets[dm])
-            col.case(('bind', tuple(t), term, tuple(f), pre, dm), nontrivial=True, sample={'label_type': t, 'terminal': term, 'factor_sizes': f, 'already_bound': pre, 'domains': domsets[dm]})
+            problems = R.check_binding(fggs, torch, t, term, f, pre, domsets[dm], var)
+            col.case(('bind', tuple(t), term, tuple(f), pre, dm, var), nontrivial=True, sample={'label_type': t, 'terminal': term, 'factor_sizes': f, 'content_variant': var, 'already_bound': pre, 'domains': domsets[dm]})
             col.check(not problems)
             if problems:
                 col.violation('binding', {'part': 'binding', 'problem': ' '.join(problems[0].split()[:3])},
-                              {'part': 'binding', 'type': t, 'terminal': term, 'fsizes': f, 'pre': pre, 'domains': domsets[dm]}, note=problems[0])
+                              {'part': 'binding', 'type': t, 'terminal': term, 'fsizes': f, 'pre': pre, 'domains': domsets[dm], 'variant': var}, note=problems[0])
     col.functions |= fns.names
     return col.result(symx.STATS)
 
@@ -123,7 +124,7 @@ def main():
     code = lib.finish(
         PID, a.tier, a.seed, 'other', merged, t0,
         rule='FiniteDomain over every list of <=3 (quick) / <=4 (thorough) pairwise distinct values chosen by solver variables from a pool of ints, negative ints, strings incl. the empty string, a tuple, a float and None, plus a probe value; RangeDomain(n) for n<=4 with probes -2..5; '
-             'FiniteFactor for every pair (domain sizes, weight shape) over sizes {0,1,2,3} and ranks <=2 with weights given as nested lists, Tensor or PatternedTensor (symbolic cells); every (label type, terminal?, factor sizes, already bound?, domain table) binding over a small universe.',
+             'FiniteFactor for every pair (domain sizes, weight shape) over sizes {0,1,2,3} and ranks <=2 with weights given as nested lists, Tensor or PatternedTensor (symbolic cells); every (label type, terminal?, factor sizes, content variant, already bound?, domain table) binding over a small universe (content variants: factor domains equal to the bound ones, one of them with other values of the same size, reordered, or an equal-size RangeDomain).',
         explanation='Domains: numberize/denumberize mutually inverse bijections, contains agrees, equality by content. Factors: accepted iff shapes agree; apply(values) returns exactly the symbolic cell at the numberized position (identity of terms, decided by the solver). '
                     'Binding: add_factor succeeds iff terminal, arity and every domain match and the label is unbound, a rejected call leaves the tables unchanged, add_domain rejects rebinding, shape() reports the domain sizes.',
         bounds={'domain_values': 3 if a.tier == 'quick' else 4, 'factor_rank': 2, 'sizes': '0..3'},
